@@ -54,7 +54,7 @@ def programs(tier, seed):
         for st in (STEPS_POS if pos else STEPS_NEG):
             k += 1
             for ti, tile in enumerate(TILES):
-                if tier != 'thorough' and ti != k % 7:
+                if (tier != 'thorough' and ti != k % 7) or (tier == 'thorough' and (ti + k) % 7 not in (0, 2, 5)):
                     continue
                 forms = FORMS if tier == 'thorough' else [FORMS[(k // 7 + k) % 4]]
                 for form in forms:
